@@ -5,6 +5,7 @@ text of v = NDIG(v) bytes, byte at right offset k = '0' + (floor(v / 10^k) mod 1
 '-' in front for negative values, group character at right offsets 3, 7, 11, ... of the grouped text.
 """
 import os
+import re
 
 from . import core
 from .core import Job, Rule, R_ANON, R_AUTO, Undecided
@@ -125,6 +126,14 @@ def contracts_text(W):
                  '__CPROVER_ensures(R == %s + 1)\n' % n +
                  '__CPROVER_ensures(b[0] == \'-\')\n' + text_clauses(1, 'G', grouped) + ';\n'
                  '#endif')
+    # ---- "the buffer variants write the same text": with the group character omitted, the buffer overloads of the dispatch header
+    #      must group with the character the std::string overloads default to (CV_GDEF, read from the header text each run)
+    import re as _re
+    for name in ('gutos_contract', 'gitos_contract'):
+        blk = next(x for x in o if _re.search(r'\b%s\(' % name, x))
+        blk = blk.replace(name, name.replace('_contract', '_def_contract')).replace(', char g)', ')')
+        blk = _re.sub(r'== g\)', '== CV_GDEF)', blk)
+        o.append('/* group character omitted */\n' + blk)
     # ---- std::string variants: a wrapper (compiled with the unit) copies the returned string into `out` and converts it
     #      back with celma::format::stringTo<T>; the contract pins the text and the round trip
     o.append('extern unsigned long cv_parse_abs; extern int cv_parse_neg; extern int cv_rt_ok;')
@@ -229,6 +238,12 @@ void h_dutos() { GHOST; char* b; UT v;%(gd)s DISPATCH(b, v%(g)s); CANARY; }
 void h_ditos() { GHOST; char* b; ST v;%(gd)s DISPATCH(b, v%(g)s); CANARY; }
 size_t w_dsutos(UT v%(garg)s, char* b) { std::string s = DISPATCH(v%(g)s); COPY_OUT ROUNDTRIP(UT, 0) return n; }
 size_t w_dsitos(ST v%(garg)s, char* b) { std::string s = DISPATCH(v%(g)s); COPY_OUT ROUNDTRIP(ST, v < 0) return n; }
+#ifdef GROUPED
+int w_ddef_utos(char* b, UT v) { return DISPATCH(b, v); }   /* group character omitted */
+int w_ddef_itos(char* b, ST v) { return DISPATCH(b, v); }
+void h_ddef_utos() { GHOST; char* b; UT v; w_ddef_utos(b, v); CANARY; }
+void h_ddef_itos() { GHOST; char* b; ST v; w_ddef_itos(b, v); CANARY; }
+#endif
 void h_dsutos() { GHOST; char* b; UT v;%(gd)s w_dsutos(v%(g)s, b); CANARY; }
 void h_dsitos() { GHOST; char* b; ST v;%(gd)s w_dsitos(v%(g)s, b); CANARY; }
 }
@@ -279,6 +294,11 @@ class Unit:
             Rule('R-SFINAE-T', r'grouped_int2string\( T value,', 'grouped_int2string( CV_T( b, s) value,', 1),
             Rule('R-SFINAE-T-buf', r'grouped_int2string\( char\* buffer, T value,', 'grouped_int2string( char* buffer, CV_T( b, s) value,', 1),
             Rule('drop-includes', r'#include <(type_traits|iostream)>\n', '', 2)], pre=pre_g)
+        gh = open(os.path.join(core.SRC, 'celma/format/grouped_int2string.hpp')).read()
+        md = re.search(r"grouped_int2string\( T value, char group_char = ('(?:\\.|[^'\\])')\)", gh)
+        if not md:
+            raise Undecided('extraction: default group character of grouped_int2string( T value, ...) not found')
+        self.gdef = md.group(1)
         self.witnesses = []
         self.witness()
 
@@ -344,13 +364,13 @@ def make_build(unit, W, grouped, kind, n0, sgn):
     buf = r'\(ptr_char,'
 
     def build(job, wd):
-        defs = ['-DN0=%d' % n0, '-DSGN=%d' % sgn] + (['-DGROUPED'] if grouped else [])
+        defs = ['-DN0=%d' % n0, '-DSGN=%d' % sgn, '-DCV_GDEF=%s' % unit.gdef] + (['-DGROUPED'] if grouped else [])
         core.goto_cc(['-nostdinc', '-I', core.STUBS, '-I', unit.shadow.root] + defs +
                      [unit.files[(W, grouped)], '-o', 'cpp.gb'], wd, 'C13 harness TU w%d' % W)
         core.goto_cc(defs + [unit.files[(W, 'c')], '-o', 'c.gb'], wd, 'C13 contracts w%d' % W)
         h = {'strlen': 'h_strlen', 'convert': 'h_convert', 'utos': 'h_utos', 'negtos': 'h_negtos',
              'itos': 'h_itos', 'sutos': 'h_sutos', 'sitos': 'h_sitos', 'dutos': 'h_dutos', 'ditos': 'h_ditos',
-             'dsutos': 'h_dsutos', 'dsitos': 'h_dsitos'}[kind]
+             'dsutos': 'h_dsutos', 'dsitos': 'h_dsitos', 'ddef_utos': 'h_ddef_utos', 'ddef_itos': 'h_ddef_itos'}[kind]
         core.goto_cc(['cpp.gb', 'c.gb', '--function', h, '-o', 'l.gb'], wd, 'link')
         syms = core.symbols('l.gb', wd)
         s_conv = core.resolve_symbol(syms, conv_rx)
@@ -372,6 +392,9 @@ def make_build(unit, W, grouped, kind, n0, sgn):
         elif kind in ('dsutos', 'dsitos'):
             enf = ('w_' + kind, p + kind[1:] + '_contract')
             rep = [(s_conv, pc + 'convert_contract'), (s_len, 'strlen_contract')]
+        elif kind in ('ddef_utos', 'ddef_itos'):
+            enf = ('w_' + kind, 'g%s_def_contract' % kind[5:])
+            rep = [(core.resolve_symbol(syms, rx_fn(U) + 'ptr_char,'), 'gutos_contract'), (core.resolve_symbol(syms, rx_fn(I) + 'ptr_char,'), 'gitos_contract')]
         elif kind in ('dutos', 'ditos'):
             # the overload of int2string( char*, T) selected for the W-bit type; every buffer converter it could forward to is
             # replaced by its contract
@@ -393,7 +416,7 @@ def make_build(unit, W, grouped, kind, n0, sgn):
 
 def make_cover_build(unit, W):
     def build(job, wd):
-        core.goto_cc(['-DN0=1', '-DSGN=0', unit.files[(W, 'c')], '--function', 'h_cover', '-o', 'c.gb'], wd, 'C13 cover w%d' % W)
+        core.goto_cc(['-DN0=1', '-DSGN=0', '-DCV_GDEF=%s' % unit.gdef, unit.files[(W, 'c')], '--function', 'h_cover', '-o', 'c.gb'], wd, 'C13 cover w%d' % W)
         return os.path.join(wd, 'c.gb')
     return build
 
@@ -474,6 +497,16 @@ def jobs(unit, tier, only=None):
                                    backend='sat', timeout=900, instance={'width': W, 'digits': n, 'sign': '+', 'grouped': grouped, 'dispatch': True}))
             out.append(Job('c13_%s_ditos_zero' % tag, fn + '(char*, intNN_t)', p + 'itos_contract', make_build(unit, W, grouped, 'ditos', 1, 0),
                            backend='sat', timeout=120, instance={'width': W, 'value': 0, 'grouped': grouped, 'dispatch': True}))
+            if grouped and M >= 4:
+                for n in sorted({4, M}):
+                    out.append(Job('c13_%s_ddef_utos_n%d' % (tag, n), fn + '(char*, uintNN_t) with the group character omitted', 'gutos_def_contract', make_build(unit, W, True, 'ddef_utos', n, 0),
+                                   backend='sat', timeout=900, instance={'width': W, 'digits': n, 'grouped': True, 'dispatch': True, 'default_group_char': unit.gdef}))
+                    if n <= POS_MAXDIG[W]:
+                        out.append(Job('c13_%s_ddef_itos_pos_n%d' % (tag, n), fn + '(char*, intNN_t) with the group character omitted', 'gitos_def_contract', make_build(unit, W, True, 'ddef_itos', n, 1),
+                                       backend='sat', timeout=900, instance={'width': W, 'digits': n, 'sign': '+', 'grouped': True, 'dispatch': True, 'default_group_char': unit.gdef}))
+                    if n <= NEG_MAXDIG[W]:
+                        out.append(Job('c13_%s_ddef_itos_neg_n%d' % (tag, n), fn + '(char*, intNN_t) with the group character omitted', 'gitos_def_contract', make_build(unit, W, True, 'ddef_itos', n, 2),
+                                       backend='sat', timeout=900, instance={'width': W, 'digits': n, 'sign': '-', 'grouped': True, 'dispatch': True, 'default_group_char': unit.gdef}))
             uw = M + (M - 1) // 3 + 8
             rt = '' if grouped else ' + stringTo<T> round trip'
             for n in ((1, 4) if grouped and M >= 4 else (1, 2)):
@@ -511,12 +544,12 @@ def replay(unit, job, o, inputs, scratch):
     W = inst.get('width')
     grouped = bool(inst.get('grouped'))
     name = job.name
-    kind = next((v for k, v in (('dsutos', 'dutos'), ('dsitos', 'ditos'), ('dutos', 'dutos'), ('ditos', 'ditos'), ('sutos', 'utos'), ('sitos', 'itos'),
+    kind = next((v for k, v in (('ddef_utos', 'ddef_utos'), ('ddef_itos_pos', 'ddef_itos'), ('ddef_itos_neg', 'ddef_itos'), ('dsutos', 'dutos'), ('dsitos', 'ditos'), ('dutos', 'dutos'), ('ditos', 'ditos'), ('sutos', 'utos'), ('sitos', 'itos'),
                                 ('strlen', 'strlen'), ('convert', 'convert'), ('utos', 'utos'), ('negtos', 'negtos'), ('itos', 'itos')) if '_' + k + '_' in name + '_'), None)
     if kind is None or W is None:
         return {'outcome': 'unavailable', 'detail': 'no native replay for ' + name}
     n0 = inst.get('result_len') or inst.get('digits') or 1
-    if kind in ('negtos', 'itos', 'ditos'):
+    if kind in ('negtos', 'itos', 'ditos', 'ddef_itos'):
         val = _num(inputs.get('v', 0))
     elif kind == 'convert':
         val = _num(inputs.get('cv_gv', inputs.get('cvin_g', 0)))
